@@ -2,6 +2,8 @@
    MaxConns counter invariant, MaxBytes gate, RPC twin. *)
 From God Require Import Base.Prelude C02.Model C02.Spec.
 Local Open Scope Z_scope.
+(* most lemmas hold whatever values the guards notice; keep `simpl` from unfolding the (constant) test *)
+Local Arguments recover_sees : simpl never.
 
 (* ================================================================== sequential handler semantics *)
 (* how the handler goroutine ends: close(done) / panicChan <- p / neither (an unseen panic without Recover) *)
@@ -88,17 +90,17 @@ Proof.
   - simpl in H. inversion H; subst. simpl. rewrite app_nil_r. unfold fcode. repeat split; auto.
     all: try (destruct (tw_wroteHeader tf); reflexivity).
   - (* what a panicking action leaves: t' agrees with t on everything the done arm reads *)
-    assert (Hpanic : forall t' v, tw_timedOut t' = false -> tw_h t' = tw_h t -> tw_wbuf t' = tw_wbuf t ->
+    assert (Hpanic : forall t' (b : bool), tw_timedOut t' = false -> tw_h t' = tw_h t -> tw_wbuf t' = tw_wbuf t ->
                        tw_wroteHeader t' = tw_wroteHeader t -> tw_code t' = tw_code t ->
-                       (if recover then (if recover_sees v then recover_write t' else (t', EDone))
-                        else (t', if recover_sees v then EPanic else EStuck)) = (tf, e) ->
-                       e = (if true && negb recover then (if recover_sees v then EPanic else EStuck) else EDone) /\
+                       (if recover then (if b then recover_write t' else (t', EDone))
+                        else (t', if b then EPanic else EStuck)) = (tf, e) ->
+                       e = (if true && negb recover then (if b then EPanic else EStuck) else EDone) /\
                        tw_timedOut tf = false /\ tw_h tf = tw_h t /\
                        tw_wbuf tf = tw_wbuf t ++ [] /\
                        fcode tf = (if tw_wroteHeader t then tw_code t
-                                   else if recover_sees v && recover then statusInternalServerError else statusOK)).
-    { intros t' v E' Hh Hb Hw Hc HH. rewrite app_nil_r. destruct recover; simpl.
-      - destruct (recover_sees v); simpl.
+                                   else if b && recover then statusInternalServerError else statusOK)).
+    { intros t' b E' Hh Hb Hw Hc HH. rewrite app_nil_r. destruct recover; simpl.
+      - destruct b; simpl.
         + unfold recover_write in HH. rewrite whl_500 in HH by assumption. inversion HH; subst. unfold fcode.
           destruct (tw_wroteHeader t') eqn:W; rewrite <- Hw; simpl; rewrite ?W; repeat split; auto.
         + inversion HH; subst. unfold fcode. rewrite Hw, Hc. repeat split; auto.
@@ -112,12 +114,12 @@ Proof.
       * rewrite E in H. destruct (tw_wroteHeader t) eqn:W.
         -- apply IH in H; [|assumption]. rewrite W in H. simpl. exact H.
         -- apply IH in H; [|reflexivity]. simpl in H. exact H.
-      * apply (Hpanic t PVString) in H; auto.
+      * apply (Hpanic t (recover_sees PVString)) in H; auto.
     + (* Write *)
       unfold tw_write, write_header_locked in H. rewrite E in H. destruct (tw_wroteHeader t) eqn:W; simpl in H.
       * apply IH in H; [|assumption]. simpl in H. rewrite W in H. rewrite <- app_assoc in H. exact H.
       * rewrite ?E in H. simpl in H. apply IH in H; [|reflexivity]. simpl in H. rewrite <- app_assoc in H. exact H.
-    + (* PanicA *) apply (Hpanic t v) in H; auto.
+    + (* PanicA *) apply (Hpanic t (recover_sees v)) in H; auto.
 Qed.
 
 Definition resp_of (rh0 : hdrs) (t : tw) : response := mkresp (fcode t) (hmerge rh0 (tw_h t)) (tw_wbuf t).
@@ -447,18 +449,20 @@ Proof.
   destruct (step recover l s) as [s1|] eqn:E; [|discriminate]. apply step_measure in E. apply IH in H. lia.
 Qed.
 
-(* with Recover inside, a dead handler goroutine has always closed `done` *)
-Lemma recover_dead_done ls : forall s s',
-  (st_h s = HDead -> st_done s = true) -> run true ls s = Some s' -> (st_h s' = HDead -> st_done s' = true).
+(* a dead handler goroutine has always signalled: close(done) or a send on panicChan (every unfinished call is
+   reported, whatever the panic value) *)
+Lemma dead_signalled recover ls : forall s s',
+  (st_h s = HDead -> st_done s = true \/ st_panicked s = true) -> run recover ls s = Some s' ->
+  (st_h s' = HDead -> st_done s' = true \/ st_panicked s' = true).
 Proof.
   induction ls as [|l r IH]; simpl; intros s s' J H; [inversion H; subst; assumption|].
-  destruct (step true l s) as [s1|] eqn:E; [|discriminate]. eapply IH; [|exact H]. clear IH H.
+  destruct (step recover l s) as [s1|] eqn:E; [|discriminate]. eapply IH; [|exact H]. clear IH H.
   destruct l as [|c|a]; simpl in E.
   - unfold h_step in E. destruct (st_h s) as [[|a rest]| |]; [| | |discriminate].
     + inversion E; subst; simpl; auto.
-    + destruct (do_action (st_tw s) a) as [t' o]. destruct o; inversion E; subst; simpl; try discriminate.
-      destruct (recover_sees (panic_value_of a)); discriminate.
-    + destruct (whl_500_ok (st_tw s)) as [t' W]. rewrite W in E. inversion E; subst; simpl; discriminate.
+    + destruct (do_action (st_tw s) a) as [t' o]. destruct o; [| | |destruct recover]; inversion E; subst; simpl;
+        try discriminate; auto.
+    + destruct (write_header_locked (st_tw s) statusInternalServerError); inversion E; subst; simpl; try discriminate; auto.
   - unfold fire_step in E. destruct (st_fired s); [discriminate|]. inversion E; subst; assumption.
   - unfold sel_step in E. destruct (st_sel s); [discriminate|]. destruct a.
     + destruct (st_panicked s); [|discriminate]. inversion E; subst; assumption.
@@ -466,26 +470,21 @@ Proof.
     + destruct (st_fired s); [|discriminate]. inversion E; subst; assumption.
 Qed.
 
-Lemma progress rh0 acts s :
-  reachable true rh0 acts s -> terminal s = false ->
-  (exists s', step true LH s = Some s') \/ (exists a s', step true (LSel a) s = Some s').
+Lemma progress recover rh0 acts s :
+  reachable recover rh0 acts s -> terminal s = false ->
+  (exists s', step recover LH s = Some s') \/ (exists a s', step recover (LSel a) s = Some s').
 Proof.
-  intros [ls R] T. pose proof (recover_dead_done ls _ _ (fun H : st_h (init rh0 acts) = HDead => ltac:(discriminate H)) R) as J.
+  intros [ls R] T.
+  pose proof (dead_signalled recover ls _ _ (fun H : st_h (init rh0 acts) = HDead => ltac:(discriminate H)) R) as J.
   unfold terminal in T. simpl.
   destruct (st_h s) as [[|a rest]| |] eqn:Eh.
   - left. unfold h_step. rewrite Eh. eauto.
-  - left. unfold h_step. rewrite Eh. destruct (do_action (st_tw s) a) as [t' o]. destruct o; eauto.
+  - left. unfold h_step. rewrite Eh. destruct (do_action (st_tw s) a) as [t' o]. destruct o; [| | |destruct recover]; eauto.
   - left. unfold h_step. rewrite Eh. destruct (write_header_locked (st_tw s) statusInternalServerError); eauto.
-  - right. destruct (st_sel s) eqn:Es; [discriminate|].
-    exists ArmDone. unfold sel_step. rewrite Es, (J eq_refl). eauto.
+  - right. destruct (st_sel s) eqn:Es; [discriminate|]. destruct (J eq_refl) as [D|P].
+    + exists ArmDone. unfold sel_step. rewrite Es, D. eauto.
+    + exists ArmPanic. unfold sel_step. rewrite Es, P. eauto.
 Qed.
-
-(* without Recover an unseen panic (panic(nil) under go 1.19 semantics) ends the handler goroutine with neither
-   close(done) nor a send on panicChan: ServeHTTP sits in its select until the deadline -- computed witness *)
-Lemma no_recover_nil_panic_stuck :
-  exists s, run false [LH] (init [] [PanicA PVNil]) = Some s /\ terminal s = false /\
-            step false LH s = None /\ (forall a, step false (LSel a) s = None).
-Proof. eexists. split; [reflexivity|]. split; [reflexivity|]. split; [reflexivity|]. intros [| |]; reflexivity. Qed.
 
 Lemma terminal_no_step recover s : terminal s = true ->
   step recover LH s = None /\ forall a, step recover (LSel a) s = None.
@@ -686,25 +685,18 @@ Proof.
   - rewrite D in H. discriminate.
 Qed.
 
-(* the interceptor always returns (unless the handler panics with a value the recover test misses): while it
-   has not, the handler step or some select arm is enabled *)
-Lemma rprogress crash h s : (forall v, h = HPanics v -> recover_sees v = true) ->
+(* the interceptor always returns: while it has not, the handler step or some select arm is enabled *)
+Lemma rprogress crash h s :
   (exists ls, rrun crash ls (rinit h) = Some s) -> rs_out s = None ->
   (exists s', rstep crash LH s = Some s') \/ (exists a s', rstep crash (LSel a) s = Some s').
 Proof.
-  intros Hv [ls R] O. apply (rrun_inv crash h) in R; [|apply rinv_init]. destruct R as [I1 _]. simpl.
+  intros [ls R] O. apply (rrun_inv crash h) in R; [|apply rinv_init]. destruct R as [I1 _]. simpl.
   destruct (rs_pending s) as [h'|] eqn:E.
   - left. unfold rh_step. rewrite E. destruct h'; eauto.
   - right. destruct h as [r c|v].
     + destruct I1 as (D & P & V). exists ArmDone. unfold rsel_step. rewrite O, D, V. eauto.
-    + destruct I1 as (D & P). rewrite (Hv v eq_refl) in P. exists ArmPanic. unfold rsel_step. rewrite O, P. eauto.
+    + destruct I1 as (D & P). exists ArmPanic. unfold rsel_step. rewrite O, P. unfold recover_sees. eauto.
 Qed.
-
-(* an unseen panic leaves the unary timeout interceptor in its select until the deadline -- computed witness *)
-Lemma rpc_nil_panic_stuck crash :
-  exists s, rrun crash [LH] (rinit (HPanics PVNil)) = Some s /\ rs_out s = None /\
-            rstep crash LH s = None /\ (forall a, rstep crash (LSel a) s = None).
-Proof. eexists. split; [reflexivity|]. split; [reflexivity|]. split; [reflexivity|]. intros [| |]; reflexivity. Qed.
 
 (* ================================================================== the statements of Props.v *)
 Lemma t_exactly_one_response : forall recover rh0 acts ls s,
@@ -731,11 +723,10 @@ Lemma t_never_hangs : forall recover rh0 acts ls s,
      (exists s', step recover LH s = Some s') \/ (exists a s', step recover (LSel a) s = Some s')) /\
   (terminal s = true -> step recover LH s = None /\ forall a, step recover (LSel a) s = None).
 Proof.
-  intros recover rh0 acts ls s H. repeat split.
+  intros recover rh0 acts ls s H. split; [|split].
   - apply run_measure in H. unfold measure, init in H; simpl in H. lia.
-  - apply progress with (rh0 := rh0) (acts := acts). exists ls. exact H.
-  - apply terminal_no_step; assumption.
-  - apply terminal_no_step; assumption.
+  - intro T. apply progress with (rh0 := rh0) (acts := acts); [exists ls; exact H|exact T].
+  - apply terminal_no_step.
 Qed.
 
 Lemma t_response_is_handler_or_timeout : forall recover rh0 acts ls s,
@@ -823,12 +814,51 @@ Lemma t_panic_is_500_if_uncommitted :
      handler_response true rh0 (pre ++ a :: post) =
      Some (mkresp c (hmerge rh0 (spec_headers pre)) (spec_body pre))).
 Proof.
-  split; [|split; [exact panic_uncommitted_500|exact panic_committed_keeps]].
-  intros rh0 acts ls s H. assert (P : st_panicked s = false) by (eapply recover_never_panics; [|exact H]; reflexivity).
-  split; [exact P|]. split.
-  - intro E. pose proof (reachable_inv true rh0 acts s (ex_intro _ ls H)) as [_ I]. rewrite E in I.
-    destruct I as (_ & P' & _). congruence.
-  - unfold handler_response. rewrite andb_false_r. eauto.
+  split; [|split].
+  - intros rh0 acts ls s H. assert (P : st_panicked s = false) by (eapply recover_never_panics; [|exact H]; reflexivity).
+    split; [exact P|]. split.
+    + intro E. pose proof (reachable_inv true rh0 acts s (ex_intro _ ls H)) as [_ I]. rewrite E in I.
+      destruct I as (_ & P' & _). congruence.
+    + unfold handler_response, handler_response_gen. rewrite andb_false_r. eauto.
+  - intros rh0 pre a post H Ha Hc. unfold handler_response. rewrite (panic_uncommitted_status _ _ _ _ _ H Ha Hc). reflexivity.
+  - intros. apply panic_committed_keeps; assumption.
+Qed.
+
+(* The value a handler panics with is irrelevant: recover_status is 500 and crash_code is Internal for EVERY
+   value (constant functions), the code's REST response is the property's spec_response (which treats every panic
+   alike) for every script, swapping one value for another changes nothing, and the unary chain answers Internal
+   under Crash with and without the timeout interceptor in between. *)
+Lemma response_is_spec recover rh0 acts : handler_response recover rh0 acts = spec_response recover rh0 acts.
+Proof. apply response_is_spec_unless_unseen. destruct (first_panic acts); reflexivity. Qed.
+
+Lemma t_panic_value_irrelevant :
+  (forall v, recover_status v = Some 500 /\ crash_code v = Some codeInternal) /\
+  (forall recover rh0 acts, handler_response recover rh0 acts = spec_response recover rh0 acts) /\
+  (forall recover rh0 pre post v w,
+     handler_response recover rh0 (pre ++ PanicA v :: post) = handler_response recover rh0 (pre ++ PanicA w :: post)) /\
+  (forall v,
+     rpc_direct true (HPanics v) = RResult None codeInternal /\
+     forall ls s a res, rrun true ls (rinit (HPanics v)) = Some s -> rs_out s = Some (a, res) ->
+                        a = ArmFired \/ res = RResult None codeInternal).
+Proof.
+  split; [|split; [|split]].
+  - intro v. split; reflexivity.
+  - exact response_is_spec.
+  - intros recover rh0 pre post v w. rewrite !response_is_spec.
+    unfold spec_response, handler_response_gen, panic_seen.
+    assert (E : effective (pre ++ PanicA v :: post) = effective (pre ++ PanicA w :: post) /\
+                has_panic (pre ++ PanicA v :: post) = has_panic (pre ++ PanicA w :: post) /\
+                match first_panic (pre ++ PanicA v :: post) with Some _ => true | None => false end =
+                match first_panic (pre ++ PanicA w :: post) with Some _ => true | None => false end).
+    { induction pre as [|b r IH]; simpl; [auto|]. destruct (panics b); [auto|].
+      destruct IH as (-> & -> & ->). auto. }
+    destruct E as (-> & -> & ->). reflexivity.
+  - intro v. split; [reflexivity|].
+    intros ls s a res H O. pose proof (proj2 (rrun_inv true (HPanics v) ls _ _ (rinv_init true (HPanics v)) H)) as C.
+    rewrite O in C. destruct a.
+    + right. destruct C as (_ & ->). reflexivity.
+    + destruct C as (r & c & D & _). discriminate.
+    + left. reflexivity.
 Qed.
 
 Lemma t_maxconns_bound : forall n reqs ls s,
@@ -852,7 +882,7 @@ Lemma t_maxbytes_gate : forall recover rh0 n clen acts,
   (~ 0 < n < clen -> gated_script n clen acts = acts).
 Proof.
   intros recover rh0 n clen acts. split; [apply maxbytes_rejects_iff|]. split.
-  - intro H. apply maxbytes_rejects_iff in H. apply gate_rejects. assumption.
+  - intro H. apply maxbytes_rejects_iff in H. destruct (gate_rejects recover rh0 n clen acts H) as (A & B & _). auto.
   - intro H. apply gate_passes. destruct (maxbytes_rejects n clen) eqn:E; [|reflexivity].
     apply maxbytes_rejects_iff in E. contradiction.
 Qed.
@@ -863,7 +893,8 @@ Lemma t_rpc_result_is_handler_or_deadline : forall crash h ls s,
   | None => True
   | Some (ArmDone, res) => exists r c, h = HReturn r c /\ res = RResult r c
   | Some (ArmFired, res) => exists c, rs_fired s = Some c /\ res = RResult None (deadline_code c)
-  | Some (ArmPanic, res) => h = HPanics /\ res = (if crash then RResult None codeInternal else RPropagatedPanic)
+  | Some (ArmPanic, res) => (exists v, h = HPanics v /\ recover_sees v = true) /\
+                            res = (if crash then RResult None codeInternal else RPropagatedPanic)
   end.
 Proof. intros crash h ls s H. exact (proj2 (rrun_inv crash h ls _ _ (rinv_init crash h) H)). Qed.
 
@@ -1003,7 +1034,8 @@ Lemma t_rpc_requests_independent : forall crash hs ls ss,
        | None => True
        | Some (ArmDone, res) => exists r c, h = HReturn r c /\ res = RResult r c
        | Some (ArmFired, res) => exists c, rs_fired s = Some c /\ res = RResult None (deadline_code c)
-       | Some (ArmPanic, res) => h = HPanics /\ res = (if crash then RResult None codeInternal else RPropagatedPanic)
+       | Some (ArmPanic, res) => (exists v, h = HPanics v /\ recover_sees v = true) /\
+                            res = (if crash then RResult None codeInternal else RPropagatedPanic)
        end) /\
   (forall i l, (exists ss', pstep (rstep crash) (i, l) ss = Some ss') <->
                (exists s s', nth_error ss i = Some s /\ rstep crash l s = Some s')).
